@@ -4,6 +4,22 @@ import json, os
 V = os.path.dirname(os.path.dirname(os.path.abspath(__file__)))
 
 CLAIMS = {
+ "C04": dict(
+   text="Theorems, generic in the number system, by induction over arbitrary advance/set_state histories: the animator invariant (values are a fixpoint of the current timeline at the time in state; a remembered pause for another state exists only while the current state is un-animated and the values are a fixpoint of the paused timeline at the remembered position) holds initially and is preserved by every operation; under it and the blend law of each timeline (preserved by start_with) set_state leaves current_values exactly unchanged in both the resume and the blend branch; setting the current state is the identity on the whole record. Holds for the repaired pause bookkeeping (fix ba53243; pre-fix witness in corpus/). Correspondence: histories over 2–5 states from a pool of timeline shapes (finite, delayed, repeating, reversing, infinite, merged, none), model-vs-code after every op including the hook snapshot; exact before/after set_state equality on the implementation.",
+   note="The blend law (start_with(v) then evaluation at 0 gives v) is a hypothesis of the theorem; it is the property's own scope (built-in easings, distinct positions per property, representable values) and follows at ℚ from C10.start_value_until_delay per property. Trusted: Lean kernel, sampled tie.",
+   technique="Lean 4 theorems (invariant by induction over operation histories) + bit-exact correspondence + exact no-jump oracle", design="§7 C04"),
+ "C05": dict(
+   text="Theorems: after any history the values are the current state's timeline evaluated at the time spent in the state (invariant, by induction over histories), the timeline entered is started from the values held at entry with the clock at zero, current_state is the last state set, advance adds exactly the elapsed nanoseconds; one-step rules for pause (remembered with position), resume (restores the position), passing through further un-animated states (pause kept), entering another animated state (pause discarded — repaired behaviour), and a pause for another state exists only while the current state is un-animated. Correspondence: model-vs-code after every op with the internal time and pause record (verif-hooks snapshot); independent abstract machine of the documented rules run against the implementation's observable state.",
+   note="Stated as invariant + one-step rules rather than a separate refinement map. Trusted: Lean kernel, sampled tie, hook is read-only.",
+   technique="Lean 4 theorems (invariant + step rules) + differential validation incl. hook snapshot + abstract-machine oracle", design="§7 C05"),
+ "C06": dict(
+   text="Theorems: advance(0) is the identity on the whole record in every reachable animator; two advances move the nanosecond clock exactly like one advance by the sum; advance(a);advance(b) = advance(a+b) as whole records when the written slot set is time-independent (values are recomputed from absolute time; write-list argument); inserting a zero-length advance anywhere in a history changes nothing; whole-nanosecond step sizes convert and add exactly (ℚ). Correspondence: anim6 suite drives twin animators with a partition of each interval (1–6 exact binary steps) and with the whole interval, interleaved with state changes; outputs must be identical (implementation alone) and equal to the model.",
+   note="For step sizes not exactly representable the property allows float rounding; those are compared model-vs-code bit-exactly only. Trusted: Lean kernel, sampled tie.",
+   technique="Lean 4 theorems (clock arithmetic in Nat nanoseconds, write-list overwrite argument) + twin-schedule oracle", design="§7 C06"),
+ "C07": dict(
+   text="Theorems at ℚ: is_ended iff no timeline or time in state ≥ total duration; never while any merged component repeats infinitely; the duration compared is the maximum over components (C12); once true it stays true under further advances; once every component is past its end a further advance leaves current_values unchanged (terminal values; uses C02.after_end_constant and the animator invariant). Correspondence: advances landing exactly on, and next to, the end instant; monotonicity and rest oracles on the implementation (rest on dyadic configurations).",
+   note="Rounding: in binary32 `t ≥ delay+dur` and `t−delay > dur` can differ by one ulp for non-dyadic configurations (observed, bounded; not a finding) — the rest-oracle therefore runs on configurations whose arithmetic is exact. Trusted: Lean kernel, sampled tie.",
+   technique="Lean 4 theorems (order arithmetic over ℚ, merged fold) + bit-exact correspondence + monotonicity/rest oracles", design="§7 C07"),
  "C01": dict(
    text="Theorems at ℚ for keyframe lists of any length (repeated positions, any presence mask, per-keyframe easings): from_keyframes builds exactly the declarative CSS reading (defining keyframes with carried easings, synthetic 0% default frame iff needed, trailing 100% frame iff needed; by induction over the fold); the rustc binary search meets the contract the lookup needs (loop invariant with fuel); the lookup theorem: for every admissible master index, value_at interpolates between the two adjacent frames bracketing the position; hence at a position strictly between consecutive frames the value is lerp of their values at the eased fraction with the start frame's easing, with/without a substituted start value; default-start and hold-end corollaries; omitted keyframes irrelevant; update writes exactly the sub-timeline value. Correspondence: derive-built timelines (3 shapes) bit-exact on boundary-directed times; spec oracle: implementation vs the CSS reading evaluated in exact arithmetic.",
    note="Keyframes sorted with positions in [0,1] (the builder sorts: C11). Exact arithmetic in theorems; binary32 validated bit-exactly. Trusted: Lean kernel, transcription of rustc's binary_search_by, sampled tie.",
